@@ -95,7 +95,7 @@ def main():
     out = []
     for job in jobs:
         src, path = job['src'], job.get('path')
-        proj = jedi.Project(os.path.dirname(path) if path else '/nonexistent_verif_c16')
+        proj = jedi.Project(job.get('project') or (os.path.dirname(path) if path else '/nonexistent_verif_c16'))
         res = []
         if job['mode'] == 'fresh':            # every query on its own Script
             for (m, line, col) in job['queries']:
